@@ -33,7 +33,8 @@ def table_prefix():
         try:
             with open(os.path.join(VERIF, ".cache", "generated.json")) as f:
                 gj = json.load(f)
-            _TABLE_PREFIX = ["table-clear"] + ["table-add " + w for w in gj["table_wire"]]
+            # the LIVE table goes to the parser model only; the recogniser (`wf`) keeps judging with the frozen table of the spec
+            _TABLE_PREFIX = ["table-live-clear"] + ["table-live-add " + w for w in gj["table_wire"]]
         except Exception:  # noqa
             _TABLE_PREFIX = []
     return _TABLE_PREFIX
